@@ -6,6 +6,9 @@
 // seeded random concrete runs as event traces for DomainSet_Trace.tla (leg C).
 // No oracle lives here: the driver only concretizes, drives and compares with the behaviour.
 //
+// Regular expressions are rendered in lower case except for the forms ssuf / spre (upper-case escape class \S)
+// and upper (upper-case literals): expression text must never be case-folded by a loader.
+//
 // Concretization: the abstract characters E, B, C are mapped to concrete fragments (labels a = E.B
 // glued, b = B, c = C, so that b is a string suffix of a), "." to ".".  A fragment map is admissible
 // iff every fragment starts with a character that occurs nowhere else in any fragment (checked at
@@ -72,7 +75,7 @@ var fragMaps = []FragMap{
 	{"single", "e", "b", "c"},
 	{"words", "xy", "ample", "c0m"},
 	{"63-octets", "e" + strings.Repeat("0", 30), "b" + strings.Repeat("1", 31), "c-9"},
-	{"digits-hyphen", "1q", "2-z", "3"},
+	{"digits-hyphen", "1q", "2-z", "3n"},
 	{"long-tld", "q-", "w", "c" + strings.Repeat("7", 62)},
 }
 
@@ -94,7 +97,7 @@ func (m *FragMap) frag(c string) string {
 func (m *FragMap) admissible() bool {
 	fr := []string{m.E, m.B, m.C}
 	for i, f := range fr {
-		if f == "" {
+		if f == "" || !strings.ContainsAny(f, "abcdefghijklmnopqrstuvwxyz") { // a letter: form "upper" relies on it
 			return false
 		}
 		for _, c := range []byte(f) { // lower-case LDH only: safe inside rule text and regular expressions
@@ -201,6 +204,12 @@ func (m *FragMap) ruleText(r *Rule, def string, rng *rand.Rand) string {
 			e = "^" + p + "$"
 		case "sub":
 			e = p
+		case "ssuf": // upper-case escape class: lower-casing the expression text would turn it into \s+ (no name matches)
+			e = `\S+\.` + p + "$"
+		case "spre":
+			e = "^" + p + `\.\S+$`
+		case "upper": // upper-case literals never match a normalised (lower-case) name; every fragment holds a letter
+			e = "^" + strings.ToUpper(p)
 		default:
 			panic("bad form " + f)
 		}
@@ -687,6 +696,9 @@ func randomRun(i int, rng *rand.Rand) {
 			}
 		default:
 			r = Rule{T: "regexp", F: []string{"pre", "suf", "bsuf", "eq", "sub"}[rng.Intn(5)], P: nameChars(randLabels(1, 2, rng))}
+			if rng.Intn(3) == 0 {
+				r = Rule{T: "regexp", F: []string{"ssuf", "spre", "upper"}[rng.Intn(3)], P: nameChars(randLabels(1, 1, rng))}
+			}
 		}
 		if len(pats) > 0 && rng.Intn(4) == 0 && (r.T == "full" || r.T == "domain" || r.T == "none") { // duplicates / shadowing
 			r.P = pats[rng.Intn(len(pats))]
